@@ -201,7 +201,7 @@ def _alias(inst, name):
 from harness.pipe import RICH
 QUICK += [_alias(_C02.INSTANCES["pack_raw"], "pack_raw").name, _alias(_C02.INSTANCES["pack_lz"], "pack_lz").name,
           _reg(Pipeline("pipe_rt_api_t1", 1, RICH, splitters=SPL, preempt=0, driver="api")).name,
-          _reg(Pipeline("pipe_rt_multi_t2", 2, RICH, splitters=SPL, preempt=0, driver="multi")).name]
+          _reg(Pipeline("pipe_rt_multi_t2", 2, RICH, splitters=SPL, preempt=0, driver="multi", cross=True)).name]
 THOROUGH += ["pack_raw", "pack_lz", _reg(Pipeline("T_pipe_rt_api_t2_p1", 2, _TWO0, splitters=SPL, preempt=1, driver="api")).name,
              _reg(Pipeline("T_pipe_rt_multi_t2_store", 2, RICH, splitters=SPL, preempt=0, driver="multi", zstd="store")).name,
              _reg(Pipeline("T_pipe_rt_single_t2", 2, RICH, splitters=SPL, preempt=0, driver="single", pack_size=Int(64, 0, 3))).name]
@@ -218,7 +218,7 @@ QUICK.append(_reg(Pipeline("pipe_edit_delrange_rc_multi_t1", 1, _TWO, splitters=
 QUICK.append(_reg(Pipeline("pipe_edit_subst_multi_t1", 1, _TWO, splitters=SPL, preempt=0, driver="multi", edits=[("subst", 1, 0)])).name)
 THOROUGH += ["pipe_edit_delrange_rc_multi_t1", "pipe_edit_subst_multi_t1"]
 from harness.pipe import MID as _MID, SPL3 as _SPL3, MID_ALTS as _MID_ALTS
-QUICK.append(_reg(Pipeline("pipe_mid_subst_multi_t1", 1, _MID, splitters=_SPL3, preempt=0, driver="multi", edits=[("rc", 1, 0), ("subst", 1, 0)], sym_alpha=(0, 1, 2, 3, 4), alts=_MID_ALTS)).name)
+QUICK.append(_reg(Pipeline("pipe_mid_subst_multi_t1", 1, _MID, splitters=_SPL3, preempt=0, driver="multi", edits=[("rc", 1, 0), ("subst", 1, 0)], sym_alpha=(0, 1, 2, 3, 4), alts=_MID_ALTS, cross=True)).name)
 QUICK.append(_reg(Pipeline("pipe_mid_delrange_multi_t1", 1, _MID, splitters=_SPL3, preempt=0, driver="multi", edits=[("rc", 1, 0), ("delrange", 1, 0)], alts=_MID_ALTS)).name)
 THOROUGH += ["pipe_mid_subst_multi_t1", "pipe_mid_delrange_multi_t1"]
 THOROUGH += ["pipe_edit_subst_t1", _reg(Pipeline("T_pipe_edit_indel_rc_t1", 1, _TWO, splitters=SPL, preempt=0, driver="api", edits=[("rc", 1, 0), ("del", 1, 0), ("ins", 1, 0)])).name,
